@@ -12,6 +12,23 @@ package regulator
 //@    && (forall id string :: in(id, r.tables) ==> TABLEOK(r, r.tables[id]) && r.tables[id].ID == id)
 //@    && (forall a string, b string :: in(a, r.tables) && in(b, r.tables) && a != b ==> r.tables[a] != r.tables[b])
 
+// Ghost state (specification only; C09). The regulator does not know who sits where: it hands players to tables
+// through the two callbacks. The ghost log records every player handed out that way, in order, and per table id
+// how many it was given; only the callback contracts update it. "Nobody is lost or duplicated" is then: the
+// players handed out by an operation, followed by the queue it leaves, are exactly the old queue followed by the
+// newly queued players (same order, same multiplicity); "the counts equal the real numbers": a table's recorded
+// count moves in step with what it was given.
+//@ ghost nhanded int
+//@ ghost handed map[int]string
+//@ ghost seated map[string]int
+//@ modset GH = ghost.nhanded, map(map[int]string), map(map[string]int)
+
+// a table's recorded count minus what it was given through callbacks is the same as before (two-state), for
+// every table that existed before; a table opened meanwhile records exactly what it was given
+//@ pred SHEETSTEP(r) = (forall id string :: old(in(id, r.tables)) ==> in(id, r.tables) && r.tables[id] == old(r.tables[id])
+//@        && r.tables[id].PlayerCount - ghost.seated[id] == old(r.tables[id].PlayerCount - ghost.seated[id]))
+//@    && (forall id string :: in(id, r.tables) && !old(in(id, r.tables)) ==> r.tables[id].PlayerCount == ghost.seated[id])
+
 // ---------------------------------------------------------------------------
 // callbacks (A9: tables follow the regulator's instructions). The requires clauses are what
 // property C19 demands of the regulator at every call; the ensures clauses are assumed.
@@ -21,13 +38,21 @@ package regulator
 //@   requires [C19] len(players) <= self.maxPlayersPerTable
 //@   requires [C19] self.status != CompetitionStatus_Pending
 //@   requires [C19] old(self.tableCount) == 0 ==> len(players) >= self.minInitialPlayers && old(self.playerCount) >= self.minInitialPlayers
-//@   modifies nothing
+//@   modifies @GH
 //@   ensures err == nil && !in(id, self.tables)
+//@   ensures ghost.nhanded == old(ghost.nhanded) + len(players)
+//@   ensures forall j :: j < old(ghost.nhanded) ==> ghost.handed[j] == old(ghost.handed[j])
+//@   ensures forall j :: old(ghost.nhanded) <= j && j < ghost.nhanded ==> ghost.handed[j] == players[j - old(ghost.nhanded)]
+//@   ensures ghost.seated[id] == len(players) && (forall x string :: x != id ==> ghost.seated[x] == old(ghost.seated[x]))
 
 //@ func callback.assignPlayersFn(tableID, players) (err)
 //@   requires [C19] in(tableID, self.tables) && self.tables[tableID].PlayerCount + len(players) <= self.maxPlayersPerTable
-//@   modifies nothing
+//@   modifies @GH
 //@   ensures err == nil
+//@   ensures ghost.nhanded == old(ghost.nhanded) + len(players)
+//@   ensures forall j :: j < old(ghost.nhanded) ==> ghost.handed[j] == old(ghost.handed[j])
+//@   ensures forall j :: old(ghost.nhanded) <= j && j < ghost.nhanded ==> ghost.handed[j] == players[j - old(ghost.nhanded)]
+//@   ensures ghost.seated[tableID] == old(ghost.seated[tableID]) + len(players) && (forall x string :: x != tableID ==> ghost.seated[x] == old(ghost.seated[x]))
 
 // ---------------------------------------------------------------------------
 // the waiting queue
@@ -75,10 +100,14 @@ package regulator
 //@ func (*regulator).dispatchPlayer(r, players) (res, err)
 //@   props C19 C09
 //@   requires WFR(r)
-//@   modifies Table.Required, Table.PlayerCount
+//@   modifies Table.Required, Table.PlayerCount, @GH
 //@   allocs elems(string)
 //@   ensures WFR(r)
 //@   ensures err == nil || err == ErrNoAvailableTable
+//@   ensures [C09] ghost.nhanded == old(ghost.nhanded) + len(players) - len(res)
+//@   ensures [C09] forall j :: j < old(ghost.nhanded) ==> ghost.handed[j] == old(ghost.handed[j])
+//@   ensures [C09] forall j :: old(ghost.nhanded) <= j && j < ghost.nhanded ==> ghost.handed[j] == players[j - old(ghost.nhanded)]
+//@   ensures [C09] SHEETSTEP(r)
 //@   ensures err == ErrNoAvailableTable ==> res == players && unchanged(Table.Required) && unchanged(Table.PlayerCount)
 //@             && (forall id string :: in(id, r.tables) ==> r.tables[id].Required <= 0)
 //@   ensures err == nil ==> len(res) <= len(players) && (len(players) > 0 ==> len(res) < len(players))
@@ -99,12 +128,18 @@ package regulator
 //@   props C19 C09
 //@   requires WFR(r) && r.status != CompetitionStatus_Pending
 //@   requires r.tableCount == 0 ==> len(r.waitingQueue) == r.playerCount
-//@   modifies r.tableCount, r.waitingQueue, map(map[string]*Table)
+//@   modifies r.tableCount, r.waitingQueue, map(map[string]*Table), @GH
 //@   allocs Table, elems(string)
 //@   ensures err == nil && WFR(r)
 //@   ensures r.tableCount == 0 ==> len(r.waitingQueue) == old(len(r.waitingQueue))
 //@   ensures r.tableCount >= old(r.tableCount) && len(r.waitingQueue) <= old(len(r.waitingQueue))
 //@   ensures old(JINV(r)) ==> JINV(r)
+//@   -- C09: what was handed out, followed by what still waits, is the old queue; new tables record what they got
+//@   ensures [C09] ghost.nhanded == old(ghost.nhanded) + old(len(r.waitingQueue)) - len(r.waitingQueue)
+//@   ensures [C09] forall j :: j < old(ghost.nhanded) ==> ghost.handed[j] == old(ghost.handed[j])
+//@   ensures [C09] forall j :: old(ghost.nhanded) <= j && j < ghost.nhanded ==> ghost.handed[j] == old(r.waitingQueue[j - ghost.nhanded])
+//@   ensures [C09] forall k, n :: n == old(len(r.waitingQueue)) - len(r.waitingQueue) && 0 <= k && k < len(r.waitingQueue) ==> r.waitingQueue[k] == old(r.waitingQueue[n + k])
+//@   ensures [C09] SHEETSTEP(r)
 //@   loop 1 invariant WFR(r) && r.tableCount >= old(r.tableCount) && r.status != CompetitionStatus_Pending && len(r.waitingQueue) <= old(len(r.waitingQueue))
 //@   loop 1 invariant old(JINV(r)) ==> JINV(r)
 //@   -- what is known about the water level in the first iteration (it is recomputed without a clamp afterwards)
@@ -112,6 +147,11 @@ package regulator
 //@   loop 1 invariant r.tableCount == old(r.tableCount) ==> len(r.waitingQueue) == old(len(r.waitingQueue))
 //@   loop 1 invariant r.tableCount == 0 ==> old(r.tableCount) == 0 && r.playerCount >= r.minInitialPlayers
 //@   loop 1 invariant old(r.tableCount) == 0 && r.tableCount < requiredTables && waterLevel >= r.minInitialPlayers ==> waterLevel <= len(r.waitingQueue)
+//@   loop 1 invariant [C09] ghost.nhanded == old(ghost.nhanded) + old(len(r.waitingQueue)) - len(r.waitingQueue)
+//@   loop 1 invariant [C09] forall j :: j < old(ghost.nhanded) ==> ghost.handed[j] == old(ghost.handed[j])
+//@   loop 1 invariant [C09] forall j :: old(ghost.nhanded) <= j && j < ghost.nhanded ==> ghost.handed[j] == old(r.waitingQueue[j - ghost.nhanded])
+//@   loop 1 invariant [C09] forall k, n :: n == old(len(r.waitingQueue)) - len(r.waitingQueue) && 0 <= k && k < len(r.waitingQueue) ==> r.waitingQueue[k] == old(r.waitingQueue[n + k])
+//@   loop 1 invariant [C09] SHEETSTEP(r)
 
 //@ func (*regulator).breakTable(r, tableID) (err)
 //@   props C09 C20
@@ -127,20 +167,36 @@ package regulator
 //@   props C19 C09
 //@   requires WFR(r) && r.status != CompetitionStatus_Pending
 //@   requires r.tableCount == 0 ==> len(r.waitingQueue) == r.playerCount
-//@   modifies r.tableCount, r.waitingQueue, map(map[string]*Table), Table.Required, Table.PlayerCount
+//@   modifies r.tableCount, r.waitingQueue, map(map[string]*Table), Table.Required, Table.PlayerCount, @GH
 //@   allocs Table, elems(string)
 //@   ensures err == nil && WFR(r)
 //@   ensures r.tableCount == 0 ==> len(r.waitingQueue) == old(len(r.waitingQueue))
 //@   ensures r.tableCount >= old(r.tableCount) && len(r.waitingQueue) <= old(len(r.waitingQueue))
 //@   ensures JINV(r)
+//@   -- C09: what was handed out, followed by what still waits, is the old queue; table sheets move with the hand-outs
+//@   ensures [C09] ghost.nhanded == old(ghost.nhanded) + old(len(r.waitingQueue)) - len(r.waitingQueue)
+//@   ensures [C09] forall j :: j < old(ghost.nhanded) ==> ghost.handed[j] == old(ghost.handed[j])
+//@   ensures [C09] forall j :: old(ghost.nhanded) <= j && j < ghost.nhanded ==> ghost.handed[j] == old(r.waitingQueue[j - ghost.nhanded])
+//@   ensures [C09] forall k, n :: n == old(len(r.waitingQueue)) - len(r.waitingQueue) && 0 <= k && k < len(r.waitingQueue) ==> r.waitingQueue[k] == old(r.waitingQueue[n + k])
+//@   ensures [C09] SHEETSTEP(r)
 //@   loop 1 invariant WFR(r) && (err == nil || err == ErrNoAvailableTable) && len(candidates) <= old(len(r.waitingQueue))
 //@   loop 2 invariant WFR(r) && (err == nil || err == ErrNoAvailableTable) && len(candidates) <= old(len(r.waitingQueue))
+//@   loop 1 invariant [C09] ghost.nhanded == old(ghost.nhanded) + old(len(r.waitingQueue)) - len(candidates)
+//@   loop 1 invariant [C09] forall j :: j < old(ghost.nhanded) ==> ghost.handed[j] == old(ghost.handed[j])
+//@   loop 1 invariant [C09] forall j :: old(ghost.nhanded) <= j && j < ghost.nhanded ==> ghost.handed[j] == old(r.waitingQueue[j - ghost.nhanded])
+//@   loop 1 invariant [C09] forall k, n :: n == old(len(r.waitingQueue)) - len(candidates) && 0 <= k && k < len(candidates) ==> candidates[k] == old(r.waitingQueue[n + k])
+//@   loop 1 invariant [C09] SHEETSTEP(r)
+//@   loop 2 invariant [C09] ghost.nhanded == old(ghost.nhanded) + old(len(r.waitingQueue)) - len(candidates)
+//@   loop 2 invariant [C09] forall j :: j < old(ghost.nhanded) ==> ghost.handed[j] == old(ghost.handed[j])
+//@   loop 2 invariant [C09] forall j :: old(ghost.nhanded) <= j && j < ghost.nhanded ==> ghost.handed[j] == old(r.waitingQueue[j - ghost.nhanded])
+//@   loop 2 invariant [C09] forall k, n :: n == old(len(r.waitingQueue)) - len(candidates) && 0 <= k && k < len(candidates) ==> candidates[k] == old(r.waitingQueue[n + k])
+//@   loop 2 invariant [C09] SHEETSTEP(r)
 
 //@ func (*regulator).enterWaitingQueue(r, players) (err)
 //@   props C19 C09
 //@   requires WFR(r)
 //@   requires r.tableCount == 0 ==> len(r.waitingQueue) + len(players) == r.playerCount
-//@   modifies r.tableCount, r.waitingQueue, map(map[string]*Table), Table.Required, Table.PlayerCount
+//@   modifies r.tableCount, r.waitingQueue, map(map[string]*Table), Table.Required, Table.PlayerCount, @GH
 //@   allocs Table, elems(string)
 //@   ensures err == nil && WFR(r)
 //@   ensures r.tableCount == 0 ==> len(r.waitingQueue) == old(len(r.waitingQueue)) + len(players)
@@ -150,6 +206,14 @@ package regulator
 //@   ensures [C09] r.status == CompetitionStatus_Pending ==> len(r.waitingQueue) == old(len(r.waitingQueue)) + len(players)
 //@             && (forall k :: 0 <= k && k < old(len(r.waitingQueue)) ==> r.waitingQueue[k] == old(r.waitingQueue[k]))
 //@             && (forall k :: 0 <= k && k < len(players) ==> r.waitingQueue[old(len(r.waitingQueue)) + k] == players[k])
+//@   -- C09: what was handed out, followed by what still waits, is the old queue followed by the new players
+//@   ensures [C09] ghost.nhanded == old(ghost.nhanded) + old(len(r.waitingQueue)) + len(players) - len(r.waitingQueue)
+//@   ensures [C09] forall j :: j < old(ghost.nhanded) ==> ghost.handed[j] == old(ghost.handed[j])
+//@   ensures [C09] forall j :: old(ghost.nhanded) <= j && j < ghost.nhanded ==> ghost.handed[j] ==
+//@             ite(j - old(ghost.nhanded) < old(len(r.waitingQueue)), old(r.waitingQueue[j - ghost.nhanded]), players[j - old(ghost.nhanded) - old(len(r.waitingQueue))])
+//@   ensures [C09] forall k, n :: n == old(len(r.waitingQueue)) + len(players) - len(r.waitingQueue) && 0 <= k && k < len(r.waitingQueue) ==> r.waitingQueue[k] ==
+//@             ite(n + k < old(len(r.waitingQueue)), old(r.waitingQueue[n + k]), players[n + k - old(len(r.waitingQueue))])
+//@   ensures [C09] SHEETSTEP(r)
 
 // ---------------------------------------------------------------------------
 // public operations
@@ -165,22 +229,36 @@ package regulator
 //@ func (*regulator).AddPlayers(r, players) (err)
 //@   props C19 C09
 //@   requires RINV(r)
-//@   modifies r.playerCount, r.tableCount, r.waitingQueue, map(map[string]*Table), Table.Required, Table.PlayerCount
+//@   modifies r.playerCount, r.tableCount, r.waitingQueue, map(map[string]*Table), Table.Required, Table.PlayerCount, @GH
 //@   allocs Table, elems(string)
 //@   ensures RINV(r)
 //@   ensures [C09] old(r.status) == CompetitionStatus_AfterRegDeadline ==> err == ErrAfterRegDealline && r.playerCount == old(r.playerCount)
 //@             && r.tableCount == old(r.tableCount) && r.waitingQueue == old(r.waitingQueue) && unchanged(Table.Required) && unchanged(Table.PlayerCount)
 //@             && (forall id string :: (in(id, r.tables) <==> old(in(id, r.tables))) && r.tables[id] == old(r.tables[id]))
 //@   ensures [C09] old(r.status) != CompetitionStatus_AfterRegDeadline ==> err == nil && r.playerCount == old(r.playerCount) + len(players)
+//@   -- C09: what was handed out, followed by what still waits, is the old queue followed by the new players
+//@   ensures [C09] old(r.status) != CompetitionStatus_AfterRegDeadline ==> ghost.nhanded == old(ghost.nhanded) + old(len(r.waitingQueue)) + len(players) - len(r.waitingQueue)
+//@   ensures [C09] forall j :: j < old(ghost.nhanded) ==> ghost.handed[j] == old(ghost.handed[j])
+//@   ensures [C09] old(r.status) != CompetitionStatus_AfterRegDeadline ==> (forall j :: old(ghost.nhanded) <= j && j < ghost.nhanded ==> ghost.handed[j] ==
+//@             ite(j - old(ghost.nhanded) < old(len(r.waitingQueue)), old(r.waitingQueue[j - ghost.nhanded]), players[j - old(ghost.nhanded) - old(len(r.waitingQueue))]))
+//@   ensures [C09] old(r.status) != CompetitionStatus_AfterRegDeadline ==> (forall k, n :: n == old(len(r.waitingQueue)) + len(players) - len(r.waitingQueue) && 0 <= k && k < len(r.waitingQueue) ==> r.waitingQueue[k] ==
+//@             ite(n + k < old(len(r.waitingQueue)), old(r.waitingQueue[n + k]), players[n + k - old(len(r.waitingQueue))]))
+//@   ensures [C09] old(r.status) != CompetitionStatus_AfterRegDeadline ==> SHEETSTEP(r)
 
 //@ func (*regulator).SetStatus(r, status)
 //@   props C19 C09
 //@   requires RINV(r)
 //@   -- environment: a competition that has opened tables is not put back into the pending phase
 //@   requires status == CompetitionStatus_Pending ==> r.tableCount == 0
-//@   modifies r.status, r.tableCount, r.waitingQueue, map(map[string]*Table), Table.Required, Table.PlayerCount
+//@   modifies r.status, r.tableCount, r.waitingQueue, map(map[string]*Table), Table.Required, Table.PlayerCount, @GH
 //@   allocs Table, elems(string)
 //@   ensures RINV(r) && r.status == status && r.playerCount == old(r.playerCount)
+//@   -- C09: what was handed out, followed by what still waits, is the old queue; table sheets move with the hand-outs
+//@   ensures [C09] ghost.nhanded == old(ghost.nhanded) + old(len(r.waitingQueue)) - len(r.waitingQueue)
+//@   ensures [C09] forall j :: j < old(ghost.nhanded) ==> ghost.handed[j] == old(ghost.handed[j])
+//@   ensures [C09] forall j :: old(ghost.nhanded) <= j && j < ghost.nhanded ==> ghost.handed[j] == old(r.waitingQueue[j - ghost.nhanded])
+//@   ensures [C09] forall k, n :: n == old(len(r.waitingQueue)) - len(r.waitingQueue) && 0 <= k && k < len(r.waitingQueue) ==> r.waitingQueue[k] == old(r.waitingQueue[n + k])
+//@   ensures [C09] SHEETSTEP(r)
 
 //@ func (*regulator).ReleasePlayers(r, tableID, players) (err)
 //@   props C19 C09 C20
@@ -188,9 +266,17 @@ package regulator
 //@   -- environment (A9): the players handed back were released by the regulator and are still counted
 //@   requires r.tableCount == 0 ==> len(r.waitingQueue) + len(players) == r.playerCount
 //@   requires len(r.waitingQueue) + len(players) <= r.playerCount
-//@   modifies r.tableCount, r.waitingQueue, map(map[string]*Table), Table.Required, Table.PlayerCount
+//@   modifies r.tableCount, r.waitingQueue, map(map[string]*Table), Table.Required, Table.PlayerCount, @GH
 //@   allocs Table, elems(string)
 //@   ensures err == nil && RINV(r) && r.playerCount == old(r.playerCount)
+//@   -- C09: what was handed out, followed by what still waits, is the old queue followed by the new players
+//@   ensures [C09] ghost.nhanded == old(ghost.nhanded) + old(len(r.waitingQueue)) + len(players) - len(r.waitingQueue)
+//@   ensures [C09] forall j :: j < old(ghost.nhanded) ==> ghost.handed[j] == old(ghost.handed[j])
+//@   ensures [C09] forall j :: old(ghost.nhanded) <= j && j < ghost.nhanded ==> ghost.handed[j] ==
+//@             ite(j - old(ghost.nhanded) < old(len(r.waitingQueue)), old(r.waitingQueue[j - ghost.nhanded]), players[j - old(ghost.nhanded) - old(len(r.waitingQueue))])
+//@   ensures [C09] forall k, n :: n == old(len(r.waitingQueue)) + len(players) - len(r.waitingQueue) && 0 <= k && k < len(r.waitingQueue) ==> r.waitingQueue[k] ==
+//@             ite(n + k < old(len(r.waitingQueue)), old(r.waitingQueue[n + k]), players[n + k - old(len(r.waitingQueue))])
+//@   ensures [C09] SHEETSTEP(r)
 
 //@ func (*regulator).calculateLowerWaterLevel(r) (res)
 //@   inline
